@@ -315,6 +315,69 @@ ClientStep(s, e) ==
       s2 == [s EXCEPT !.rep = Upd(@, k, new), !.resp = Upd(@, k, <<>>)]
   IN R(s2, v)
 
+\* ---- C07: sequential reference semantics of the index-based editing API --
+\* (arrays as sequences, text as a sequence of UTF-16 code units, objects as
+\* finite maps key -> marshalled value, 32-bit counters with two's-complement
+\* wrap-around, trees in the structure-preserving domain doc > p* > text as a
+\* sequence of paragraphs, each a sequence of code units)
+Ins(q, i, x) == SubSeq(q, 1, i) \o x \o SubSeq(q, i + 1, Len(q))        \* insert the sequence x after the first i items
+Del(q, i, j) == SubSeq(q, 1, i) \o SubSeq(q, j + 1, Len(q))             \* delete items i+1 .. j
+\* 32-bit two's-complement addition, written so that no intermediate value
+\* leaves TLC's own 32-bit integers
+MinI32 == (-2147483647) - 1
+AddWrap32(p, v) ==
+  IF v >= 0 /\ p > 2147483647 - v THEN MinI32 + ((p - 2147483647) + (v - 1))
+  ELSE IF v < 0 /\ p < MinI32 - v THEN 2147483647 - (((MinI32 - p) + (0 - v)) - 1)
+  ELSE p + v
+Has(a, f) == f \in DOMAIN a
+
+\* moving the item at (0-based) index t to right after the item at index p
+MoveAfterIdx(q, p, t) ==
+  LET x == q[t + 1]
+      rest == Del(q, t, t + 1)
+      p2 == IF p > t THEN p - 1 ELSE p
+  IN Ins(rest, p2 + 1, <<x>>)
+
+SeqApply(k, a, pre) ==
+  CASE k = "arr.add" -> Append(pre, a.val)
+    [] k = "arr.ins" -> Ins(pre, a.idx + 1, <<a.val>>)
+    [] k = "arr.del" -> Del(pre, a.idx, a.idx + 1)
+    [] k = "arr.mov" -> MoveAfterIdx(pre, a.prev, a.target)
+    [] k = "arr.movfront" -> <<pre[a.target + 1]>> \o Del(pre, a.target, a.target + 1)
+    [] k = "arr.movlast" -> Del(pre, a.target, a.target + 1) \o <<pre[a.target + 1]>>
+    [] k = "arr.set" -> [pre EXCEPT ![a.idx + 1] = a.val]
+    [] k = "txt.edit" -> Ins(Del(pre, a.from, a.to), a.from, a.units)
+    [] k = "txt.style" -> pre
+    [] k = "cnt.inc" -> AddWrap32(pre, a.val)
+    [] k = "obj.set" -> Upd(pre, a.key, ToString(a.val))
+    [] k = "obj.sets" -> Upd(pre, a.key, "\"" \o a.val \o "\"")
+    [] k = "obj.del" -> [x \in (DOMAIN pre) \ {a.key} |-> pre[x]]
+    [] k = "tree.style" -> pre
+    [] k = "tree.rmstyle" -> pre
+    [] k = "tree.edit" ->
+         (CASE a.mode = "instext" -> [pre EXCEPT ![a.path[1] + 1] = Ins(@, a.path[2], a.units)]
+            [] a.mode = "deltext" -> [pre EXCEPT ![a.path[1] + 1] = Del(@, a.path[2], a.path[2] + 1)]
+            [] a.mode = "reptext" -> [pre EXCEPT ![a.path[1] + 1] = Ins(Del(@, a.path[2], a.path[2] + 1), a.path[2], a.units)]
+            [] a.mode = "inselem" -> Ins(pre, a.path[1], <<a.units>>)
+            [] a.mode = "delelem" -> Del(pre, a.path[1], a.path[1] + 1))
+
+\* operations whose effect on the touched key is only checked for presence
+Approx(k) == k \in {"obj.setobj", "obj.setin"}
+
+LocalSemantics(e) ==
+  IF ~Has(e, "sem") \/ e.outcome # "ok" THEN TRUE
+  ELSE LET m == e.sem k == e.op.k IN
+       IF Approx(k)
+       THEN \A x \in (DOMAIN m.pre) \ {e.args.key} : x \in DOMAIN m.post /\ m.post[x] = m.pre[x]
+       ELSE m.post = SeqApply(k, e.args, m.pre)
+
+\* the index-based view (Len/Get/String/ToXML through the order-statistic trees)
+\* agrees with the document's own iteration (what Marshal prints)
+ViewConsistent(e) == (Has(e, "sem") /\ e.outcome \in {"ok", "skip"}) => e.sem.post = e.sem.doc
+
+\* a failed or skipped update leaves the view alone
+FailedKeepsView(e) == (Has(e, "sem") /\ e.outcome \in {"err", "panic"}) => e.sem.post = e.sem.pre
+
 \* ---- Edit / Undo / Redo ------------------------------------------------
 EditStep(s, e) ==
   LET k == <<e.c, e.d>>
@@ -335,6 +398,8 @@ EditStep(s, e) ==
               THEN [new EXCEPT !.seenlam = Max2(@, last[2]), !.seenvv = VVMax(@, new.vv)]
               ELSE new
       v == Chk(atomic, "UpdateAtomic") \cup Chk(causal, "Causal") \cup
+           (IF e.ev = "Edit" THEN Chk(LocalSemantics(e), "LocalSemantics") \cup Chk(ViewConsistent(e), "ViewConsistent")
+                                  \cup Chk(FailedKeepsView(e), "FailedKeepsView") ELSE {}) \cup
            Chk(e.ev = "Edit" => (e.ok \/ e.fail # ""), "EditNeverFails") \cup
            Chk(e.ev \in {"Undo", "Redo"} => e.ok, "UndoRedoNeverFails")
   IN R([s EXCEPT !.rep = Upd(@, k, new2)], v)
